@@ -152,9 +152,15 @@ def fold(
     rbrack = notnone(rbrack, rb)
     assert lbrack is not None and rbrack is not None
 
+    def srcrepr(v: Any) -> str:
+        # note: repr() of a non-finite float is a bare name (inf, nan)
+        if isinstance(v, float) and (v != v or v in {float('inf'), float('-inf')}):
+            return f'float({str(v)!r})'
+        return repr(v)
+
     im = IndentPrintMixin(amount=amount, initial=initial)
     if not isiter(value):
-        im.print(f'{prefix}{lbrack}{value!r}{rbrack}')
+        im.print(f'{prefix}{lbrack}{srcrepr(value)}{rbrack}')
         return im.printed_text().rstrip()
 
     if isinstance(value, dict):
@@ -163,7 +169,7 @@ def fold(
         else:
             repr_list = [f'{k}: {v}' for k, v in value.items()]
     elif reprs:
-        repr_list = [repr(v) for v in value]
+        repr_list = [srcrepr(v) for v in value]
         if isinstance(value, tuple) and len(repr_list) == 1:
             repr_list[0] += ','  # a 1-tuple needs its trailing comma to read back as a tuple
     else:
